@@ -20,6 +20,8 @@ type SMT struct {
 	// ground-axiom instantiation cache
 	inst  map[string]bool
 	inst2 map[string]string
+	// DecFull: emit the digit-class/length facts for decimal renderings
+	DecFull bool
 	// concrete type tags
 	tags map[string]int
 	// used sentinel errors
@@ -112,6 +114,19 @@ func (b *SMT) Define(prefix, sort, term string) string {
 	if strings.Contains(term, "qv!") {
 		return term // mentions a bound variable of an enclosing quantifier: cannot be named globally
 	}
+	if sort == "Bytes" && strings.HasPrefix(term, "(mkB ") {
+		// name the content string, keep the constructor visible (so selector-over-constructor simplifies)
+		a := len("(mkB ")
+		if e1 := sexprEnd(term, a); e1 > 0 && e1 < len(term) && term[e1] == ' ' {
+			if e2 := sexprEnd(term, e1+1); e2 > 0 && e2 == len(term)-1 {
+				inner := term[e1+1 : e2]
+				if len(inner) > 40 {
+					inner = b.Define(prefix+"_s", "String", inner)
+				}
+				return "(mkB " + term[a:e1] + " " + inner + ")"
+			}
+		}
+	}
 	b.n++
 	name := fmt.Sprintf("%s!%d", sanitize(prefix), b.n)
 	b.lines = append(b.lines, fmt.Sprintf("(define-fun %s () %s %s)", name, sort, term))
@@ -126,7 +141,7 @@ func (b *SMT) DeclFun(name string, args []string, ret string) {
 	b.lines = append(b.lines, fmt.Sprintf("(declare-fun %s (%s) %s)", name, strings.Join(args, " "), ret))
 }
 
-func (b *SMT) Script() string { return strings.Join(b.lines, "\n") + "\n" }
+func (b *SMT) Script() string { return strings.Join(simplifyScript(b.lines), "\n") + "\n" }
 
 func (b *SMT) Note(s string) { b.Notes[s] = true }
 
@@ -596,6 +611,13 @@ var digitsRe = `(re.+ (re.range "0" "9"))`
 func (b *SMT) Dec(x string) string {
 	return b.axiom("dec", "Int", x, func(x string) string {
 		t := app("dec", x)
-		return implies("(>= "+x+" 0)", and(eq(app("undec", t), x), app("isdec", t), "(str.in_re "+t+" "+digitsRe+")", "(<= 1 (str.len "+t+"))", implies("(< "+x+" "+two64+")", "(<= (str.len "+t+") 20)")))
+		// default facts: inverse, and free of the two separators that matter for key/identifier layouts.
+		// The digit-class and length facts make string goals much harder (length case splits), so they are
+		// only added where a contract or lemma asks for them (`decfull`).
+		facts := []string{eq(app("undec", t), x), app("isdec", t), "(not (str.contains " + t + " \"/\"))", "(not (str.contains " + t + " \"-\"))"}
+		if b.DecFull {
+			facts = append(facts, "(str.in_re "+t+" "+digitsRe+")", "(<= 1 (str.len "+t+"))", implies("(< "+x+" "+two64+")", "(<= (str.len "+t+") 20)"))
+		}
+		return implies("(>= "+x+" 0)", and(facts...))
 	})
 }
